@@ -796,11 +796,13 @@ class TExpr:
                 return (f"(RNum.{fn} {a[0]} {b[0]})", "B")
             if ty in ("N", "I"):
                 return (f"(decide ({a[0]} {op.replace('>=', '≥').replace('<=', '≤')} {b[0]}))", "B")
+        if op in ("==", "!=") and ty in ("N", "I"):
+            return (f"(decide ({a[0]} {'=' if op == '==' else '≠'} {b[0]}))", "B")
         if op in ("&&", "||") and ty == "B":
             return (f"({a[0]} {op} {b[0]})", "B")
         self.fail(f"operator {op} on type {ty}")
 
-    PREC = {"||": 1, "&&": 2, ">=": 3, "<=": 3, "<": 3, ">": 3, "+": 10, "-": 10, "*": 20, "/": 20}
+    PREC = {"||": 1, "&&": 2, ">=": 3, "<=": 3, "<": 3, ">": 3, "==": 3, "!=": 3, "+": 10, "-": 10, "*": 20, "/": 20}
 
     def expr(self, rbp=0):
         left = self.unary()
@@ -812,6 +814,10 @@ class TExpr:
             width = 1
             if x in ("<", ">") and nxt == "=":
                 op, width = x + "=", 2
+            elif x == "=" and nxt == "=":
+                op, width = "==", 2
+            elif x == "!" and nxt == "=":
+                op, width = "!=", 2
             elif x == "&" and nxt == "&":
                 op, width = "&&", 2
             elif x == "|" and nxt == "|":
@@ -1111,6 +1117,46 @@ def gen_formulas(item_prefix="G7"):
             nb = fn_body(ib, "new_with_interpolator", "G7")[1].replace("interpolator.len()", "self.interpolator.len()")
         add(f"{pre}_new_last_index", find_stmt(nb, r"\blast_index\s*:\s*(.*?),\s*\n", f"G7.{pre}_new_last_index"), ft[T], cs, "F", f"{T} constructor: last_index", LOOPL)
     loop_sigs = {k: sigs.pop(k) for k in list(sigs) if "_loop_" in k or k.endswith("_last_index")}
+    # ---- ratio setters: relative setter = absolute setter at original*rel; body shape of the absolute setter
+    rel_names = []
+    for T, pre, src_, tail in (("FastFixedIn", "fastIn", fast, ""), ("FastFixedOut", "fastOut", fast, r"self\.needed_input_size\s*=\s*[^;]*;\s*"),
+                               ("SincFixedIn", "sincIn", sinc, ""), ("SincFixedOut", "sincOut", sinc, r"self\.update_needed_len\(\);\s*")):
+        rb = strip_log_macros(impl_method_body(src_, T, "set_resample_ratio_relative", "G7"))
+        mrel = re.match(r"[\s;]*let\s+new_ratio\s*=\s*(.*?);\s*self\.set_resample_ratio\(new_ratio,\s*ramp\)\s*$", rb, re.S)
+        if not mrel:
+            raise TranslateError(f"G7.{pre}_rel_new_ratio", f"{T}::set_resample_ratio_relative is not `let new_ratio = ..; self.set_resample_ratio(new_ratio, ramp)`")
+        add(f"{pre}_rel_new_ratio", mrel.group(1), ft[T], {}, "F", f"{T}::set_resample_ratio_relative: the absolute ratio it requests", {"rel_ratio": "F"})
+        rel_names.append(f"{pre}_rel_new_ratio")
+        sb = strip_log_macros(impl_method_body(src_, T, "set_resample_ratio", "G7"))
+        shape = (r"[\s;]*if\s+.*?\{\s*if\s*!ramp\s*\{\s*self\.resample_ratio\s*=\s*new_ratio;\s*\}\s*self\.target_ratio\s*=\s*new_ratio;\s*"
+                 + tail + r"Ok\(\(\)\)\s*\}\s*else\s*\{\s*Err\(ResampleError::RatioOutOfBounds\s*\{\s*provided:\s*new_ratio,\s*"
+                 r"original:\s*self\.resample_ratio_original,\s*max_relative_ratio:\s*self\.max_relative_ratio,\s*\}\)\s*\}\s*$")
+        if not re.match(shape, sb, re.S):
+            raise TranslateError(f"G7.{pre}_set_ratio_body", f"{T}::set_resample_ratio does not have the shape `if <range> {{ if !ramp {{ self.resample_ratio = new_ratio; }} "
+                                 "self.target_ratio = new_ratio; [needed size update;] Ok(()) } else { Err(RatioOutOfBounds{..}) }` the model assumes")
+    rel_sigs = {k: sigs.pop(k) for k in rel_names}
+    # ---- set_chunk_size: only the two sinc types override the trait default (ChunkSizeNotAdjustable)
+    for T, pre in (("SincFixedIn", "sincIn"), ("SincFixedOut", "sincOut")):
+        cb = impl_method_body(sinc, T, "set_chunk_size", "G7")
+        mcs = re.match(r"\s*if\s+(.*?)\s*\{\s*return\s+Err\(ResampleError::InvalidChunkSize\s*\{\s*max:\s*self\.max_chunk_size,\s*"
+                       r"requested:\s*chunksize,\s*\}\);\s*\}\s*self\.chunk_size\s*=\s*chunksize;\s*"
+                       + (r"self\.update_needed_len\(\);\s*" if T == "SincFixedOut" else "") + r"Ok\(\(\)\)\s*$", cb, re.S)
+        if not mcs:
+            raise TranslateError(f"G7.{pre}_chunk_rejected", f"{T}::set_chunk_size is not `if <test> {{ return Err(InvalidChunkSize {{max: self.max_chunk_size, requested: chunksize}}) }} self.chunk_size = chunksize; "
+                                 + ("self.update_needed_len(); " if T == "SincFixedOut" else "") + "Ok(())`")
+        add(f"{pre}_chunk_rejected", mcs.group(1), ft[T], {}, "B", f"{T}::set_chunk_size: the request is rejected when", {"chunksize": "N"})
+    for T, file_src in (("FastFixedIn", fast), ("FastFixedOut", fast)):
+        m3 = re.search(r"impl<T>\s+Resampler<T>\s+for\s+" + T + r"<T>", file_src)
+        ib3, _ = block_after(file_src, m3.end(), "G7")
+        if re.search(r"\bfn\s+set_chunk_size\b", ib3):
+            raise TranslateError("G7.set_chunk_size_overrides", f"{T} overrides set_chunk_size (the model assumes the trait default)")
+    syn0 = strip_comments(read("synchro.rs"))
+    if re.search(r"\bfn\s+set_chunk_size\b", syn0):
+        raise TranslateError("G7.set_chunk_size_overrides", "an FFT resampler overrides set_chunk_size (the model assumes the trait default)")
+    lib0 = strip_comments(read("lib.rs"))
+    if not re.search(r"fn\s+set_chunk_size\(&mut\s+self,\s*_chunksize:\s*usize\)\s*->\s*ResampleResult<\(\)>\s*\{\s*Err\(ResampleError::ChunkSizeNotAdjustable\)\s*\}", lib0):
+        raise TranslateError("G7.set_chunk_size_default", "the trait default of set_chunk_size is not Err(ChunkSizeNotAdjustable)")
+    chunk_sigs = {k: sigs.pop(k) for k in ("sincIn_chunk_rejected", "sincOut_chunk_rejected")}
     # ---- make_interpolator: length rounding, cutoff scaling, and the arguments every kernel constructor receives
     mk = strip_log_macros(fn_body(sinc, "make_interpolator", "G7.mkInterp")[1])
     loc = {"sinc_len": "N", "resample_ratio": "F", "f_cutoff": "S"}
@@ -1140,6 +1186,8 @@ def gen_formulas(item_prefix="G7"):
     # ---- the three synchronous (FFT) resamplers: block sizing and the frame bookkeeping
     mk_sigs = {k: sigs.pop(k) for k in ("mkInterp_sinc_len", "mkInterp_f_cutoff")}
     mk_sigs.update(loop_sigs)
+    mk_sigs.update(chunk_sigs)
+    mk_sigs.update(rel_sigs)
     async_sigs = dict(sigs)
     sigs.clear()
     sigs.update(mk_sigs)
